@@ -505,6 +505,12 @@ pub fn judge_acknowledged(p: &Program, ex: &Exec, cache: &Mutex<std::collections
     }
     let seen: Mutex<HashSet<u128>> = Mutex::new(HashSet::new());
     let (_st, findings) = crash::check_history(&p.cfg, &ex.base, &ex.log, &ob, from, &opts, &seen, ctx);
+    if std::env::var("VERIF_DEBUG_ACK").is_ok() {
+        eprintln!("ack-judge: log events {} from {from} acks {:?} images {} distinct {} recoveries {} findings {}", ex.log.len(), ob.acks, _st.images, _st.distinct, _st.recoveries, findings.len());
+        for h in &ob.hists {
+            eprintln!("  key {} states {:?}", crate::util::show(&h.key), h.states.iter().map(|(i, g)| (*i, g.as_ref().map(|g| g.ts))).collect::<Vec<_>>());
+        }
+    }
     let msgs: Vec<String> = findings.into_iter().map(|f| format!("{} [crash image {}]", f.msg, f.desc)).collect();
     cache.lock().unwrap().insert(key, msgs.clone());
     v.extend(msgs);
